@@ -31,19 +31,26 @@ SPEC = {
                   "responder only the binding certificate <-> static key carried in message 1 <-> derived keys is proved. Trusted: Coq kernel; "
                   "model/Noise.v, model/Machine.v mirror flynn/noise state.go and handshake/machine.go (tied by the correspondence: real machines "
                   "with good / untrusted-CA / expired / blocklisted / certificate-for-another-key / stolen-certificate identities, both curves, "
-                  "both ciphers, scripts of deliver/drop/dup/replay/splice/truncate/flip/low-order-ephemeral/swap-cert/rewrite-payload).",
+                  "both ciphers, scripts of deliver/drop/dup/replay/splice/truncate/flip/low-order-ephemeral/swap-cert/rewrite-payload; "
+                  "component noise_mgr repeats the identity matrix through the real HandshakeManager with its production certVerifier, after a "
+                  "genuine tunnel with the victim exists, and re-checks every reported certificate with an independent full trust check).",
     "gens": [],
     "props": ["props/C05.v"],
     "corr": ["corr/Noise_corr.v"],
     "build_comp": "noise",
-    "comps": [{"comp": "noise_c05", "n_quick": 200, "n_thorough": 6000}],
+    "comps": [{"comp": "noise_c05", "n_quick": 200, "n_thorough": 6000},
+              # the same identities through the REAL HandshakeManager (beginHandshake / continueHandshake / StartHandshake with the
+              # production HandshakeManager.certVerifier), two-step histories: genuine tunnel with the victim first, then handshakes
+              # presenting the victim's certificate bytes with another static key, expired / blocklisted / untrusted and genuine ones
+              {"comp": "noise_mgr", "n_quick": 40, "n_thorough": 800}],
     "classify": _classify,
     "trusted": ["model/Noise.v, model/Machine.v: hand-written mirrors of flynn/noise v1.1.0 state.go (IX, no psk) and handshake/machine.go",
                 "lib/Sym.v: symbolic crypto; the verifier is an oracle (the set of (certificate bytes, public key) pairs it accepts): "
                 "cert.CAPool.VerifyCertificate itself is the subject of C01/C02",
                 "cert.Recombine is modelled as: parse in the format the payload's version names, refuse bytes carrying a key, install the peer "
                 "static as public key, refuse another curve",
-                "the overlay shim handshake/verif_noise.go (hs.PeerStatic accessor)"],
+                "the overlay shims handshake/verif_noise.go (hs.PeerStatic accessor) and verif_noise_mgr.go (a node made of the real "
+                "HandshakeManager, HostMap and PKI; reports what was installed in the main hostmap and what reached the socket)"],
     "assumptions": ["Noise IX guarantee (trusted, not proved): only the holder of the private half of a static key can produce a message 2 that "
                     "authenticates under DH with it, or compute session keys derived from DH with it",
                     "symbolic (Dolev-Yao) model of cryptography: hash / HKDF / AEAD / DH are free constructors up to DH commutativity",
